@@ -65,6 +65,7 @@ std::string RunCfg::brief() const {
            (unsigned long long)sched.seed, sched.param, sched.spurious, sched.preempt, sched.devs.size(), in_kind, in_frag.mode, out_kind, out_frag.mode);
   r += b;
   if (operand2) r += " | data as second FILE operand";
+  if (operand2 && op2_visible >= 0) { snprintf(b, sizeof b, " growing from %lld bytes at its read #%d", (long long)op2_visible, op2_grow_at); r += b; }
   if (nofile != 1024) { snprintf(b, sizeof b, " | nofile=%d", nofile); r += b; }
   if (inherit_mask) { snprintf(b, sizeof b, " | inherited blocked signals=0x%llx", (unsigned long long)inherit_mask); r += b; }
   if (sched.stall_k) { snprintf(b, sizeof b, " | stall %s#%u for %u decisions", sched.stall_task.c_str(), sched.stall_k, sched.stall_len); r += b; }
@@ -83,6 +84,7 @@ sim::World make_world(const std::vector<FileSpec> &files) {
   for (auto &f : files) {
     sim::Inode in;
     in.type = f.type; in.data = f.data; in.mode = f.mode; in.noread = f.noread;
+    if (f.visible >= 0 && (size_t)f.visible < f.data.size()) { in.visible = f.visible; in.grow_at = f.grow_at; }
     in.atime_s = f.atime_s; in.atime_ns = f.atime_ns; in.mtime_s = f.mtime_s; in.mtime_ns = f.mtime_ns;
     int idx = w.add(f.name, in);
     for (unsigned k = 0; k < f.nlink_extra; k++) w.link(f.name + ".lnk" + std::to_string(k), idx);
@@ -103,6 +105,7 @@ sim::Result exec(const RunCfg &cfg0, const Bytes &stdin_data0, const std::vector
     FileSpec g, f;
     g.name = dec ? "g.bz2" : "g"; g.data = dec ? first_bz : first_plain;
     f.name = dec ? "f.bz2" : "f"; f.data = stdin_data0;
+    if (!dec && cfg0.op2_visible >= 0) { f.visible = cfg0.op2_visible; f.grow_at = cfg0.op2_grow_at; }
     outname = dec ? "f" : "f.bz2";
     files2.push_back(g); files2.push_back(f);
     cfg2.argv.push_back(g.name); cfg2.argv.push_back(f.name);
@@ -203,6 +206,7 @@ void Stats::absorb(const RunCfg &cfg, const sim::Result &r) {
   for (auto &e : r.sigs) inc(std::string(e.fired ? "fault_fired.signal" : "fault_not_reached.signal") + std::to_string(e.sig));
   if (cfg.out_close_after >= 0) inc("fault_fired.stdout_reader_closed");
   if (r.spurious_fired) inc("fault_fired.spurious_wakeup", r.spurious_fired);
+  if (r.file_grew) inc("fault_fired.input_file_grew_while_read", r.file_grew);
   if (r.frag_cuts) inc("fault_fired.read_fragmented", r.frag_cuts);
   if (r.short_writes) inc("fault_fired.short_write", r.short_writes);
   if (cfg.in_granul) inc("knob.in_granul." + std::to_string(cfg.in_granul));
@@ -282,7 +286,7 @@ std::string case_to_text(const Case &c, const Verdict &v, uint64_t hash) {
     put_frag(o, "infrag", r.in_frag); put_frag(o, "outfrag", r.out_frag); put_frag(o, "filefrag", r.file_frag);
     for (auto &f : r.faults) o << " fault " << f.call << " " << f.role << " " << f.k << " " << f.err << " " << f.partial << "\n";
     for (auto &e : r.sigs) o << " sig " << e.step << " " << e.sig << "\n";
-    if (r.operand2) o << " operand2 1\n";
+    if (r.operand2) o << " operand2 1 " << r.op2_visible << " " << r.op2_grow_at << "\n";
     if (r.nofile != 1024 || r.inherit_mask) o << " procenv " << r.nofile << " " << r.inherit_mask << "\n";
     if (r.sched.stall_k) o << " stall " << r.sched.stall_task << " " << r.sched.stall_k << " " << r.sched.stall_len << "\n";
     o << " sched " << r.sched.policy << " " << r.sched.seed << " " << r.sched.param << " " << r.sched.spurious << " " << (int)r.sched.explicit_ << " " << r.sched.preempt << "\n";
@@ -330,7 +334,7 @@ bool case_from_text(const std::string &text, Case *c, Verdict *v, uint64_t *hash
       else if (k == "fault") { sim::Fault f; is >> f.call >> f.role >> f.k >> f.err >> f.partial; cur->faults.push_back(f); }
       else if (k == "sig") { sim::SigEvent e; is >> e.step >> e.sig; cur->sigs.push_back(e); }
       else if (k == "procenv") is >> cur->nofile >> cur->inherit_mask;
-      else if (k == "operand2") { int v = 0; is >> v; cur->operand2 = v != 0; }
+      else if (k == "operand2") { int v = 0; is >> v; cur->operand2 = v != 0; long long vis = -1; int ga = 0; if (is >> vis >> ga) { cur->op2_visible = vis; cur->op2_grow_at = ga; } }
       else if (k == "stall") is >> cur->sched.stall_task >> cur->sched.stall_k >> cur->sched.stall_len;
       else if (k == "sched") { int ex; is >> cur->sched.policy >> cur->sched.seed >> cur->sched.param >> cur->sched.spurious >> ex; cur->sched.explicit_ = ex; uint32_t pr = 0; if (is >> pr) cur->sched.preempt = pr; }
       else if (k == "devs") { std::string t; while (is >> t) { size_t c2 = t.find(':'); cur->sched.devs.push_back({(uint32_t)strtoul(t.c_str(), 0, 10), (uint32_t)strtoul(t.c_str() + c2 + 1, 0, 10)}); } }
@@ -380,6 +384,7 @@ Case shrink(const Driver &d, const Case &c0, const Verdict &v0, int max_evals, i
     if (best.runs[r].sched.spurious) { Case cand = best; cand.runs[r].sched.spurious = 0; if (cand.runs[r].sched.explicit_) cand.runs[r].sched.devs.clear(); try_case(cand); }
     if (best.runs[r].inherit_mask) { Case cand = best; cand.runs[r].inherit_mask = 0; try_case(cand); }
     if (best.runs[r].nofile != 1024) { Case cand = best; cand.runs[r].nofile = 1024; try_case(cand); }
+    if (best.runs[r].op2_visible >= 0) { Case cand = best; cand.runs[r].op2_visible = -1; try_case(cand); }
     if (best.runs[r].operand2) { Case cand = best; cand.runs[r].operand2 = false; try_case(cand); }
     if (best.runs[r].sched.stall_k && !best.runs[r].sched.explicit_) { Case cand = best; cand.runs[r].sched.stall_k = 0; try_case(cand); }
     if (best.runs[r].sched.preempt && !best.runs[r].sched.explicit_) { Case cand = best; cand.runs[r].sched.preempt = 0; try_case(cand); }
